@@ -169,6 +169,28 @@ MEMORY ram LOCATION=0x20000000 SIZE=0x100000 {
   SECTION(data)
 }
 """
+LAYOUT_ENTRY = """
+ENTRY(%s)
+MEMORY code LOCATION=0x2000 SIZE=0x100000 {
+  DEFINESYMBOL(code_start)
+  SECTION(code)
+  ALIGN(16)
+  DEFINESYMBOL(code_end)
+  SECTION(rodata)
+}
+MEMORY ram LOCATION=0x20000000 SIZE=0x100000 {
+  SECTION(data)
+  DEFINESYMBOL(data_end)
+}
+"""
+
+
+def layout_text(op):
+    """The layout is part of the options of a subject (same subject, same
+    layout); some layouts name an entry symbol."""
+    if op.get("layout") == 1 and op.get("entry"):
+        return LAYOUT_ENTRY % op["entry"]
+    return LAYOUT
 
 
 def sha(b):
@@ -219,7 +241,7 @@ def run_op(api, layout_mod, write_elf, op):
                 extra = [api.cc(io.StringIO(m), op["march"],
                                 opt_level=op["opt"])
                          for m in op.get("extra", [])]
-                lay = layout_mod.Layout.load(io.StringIO(LAYOUT))
+                lay = layout_mod.Layout.load(io.StringIO(layout_text(op)))
                 obj = api.link([main] + extra, lay, libraries=[lib])
             else:
                 raise ValueError(kind)
@@ -249,7 +271,7 @@ def run_op(api, layout_mod, write_elf, op):
                     write_elf(obj, f, type="relocatable")
                     data = f.getvalue()
                 elif kind == "img":
-                    lay = layout_mod.Layout.load(io.StringIO(LAYOUT))
+                    lay = layout_mod.Layout.load(io.StringIO(layout_text(op)))
                     linked = api.link([obj], lay, partial_link=False)
                     f = io.StringIO()
                     linked.save(f)
@@ -258,7 +280,7 @@ def run_op(api, layout_mod, write_elf, op):
                         for img in linked.images)
                 elif kind == "hex":
                     from ppci.format.hexfile import HexFile
-                    lay = layout_mod.Layout.load(io.StringIO(LAYOUT))
+                    lay = layout_mod.Layout.load(io.StringIO(layout_text(op)))
                     linked = api.link([obj], lay, partial_link=False)
                     hf = HexFile()
                     for img in linked.images:
@@ -267,7 +289,7 @@ def run_op(api, layout_mod, write_elf, op):
                     hf.save(f)
                     data = f.getvalue()
                 elif kind == "exe":
-                    lay = layout_mod.Layout.load(io.StringIO(LAYOUT))
+                    lay = layout_mod.Layout.load(io.StringIO(layout_text(op)))
                     linked = api.link([obj], lay, partial_link=False)
                     f = io.BytesIO()
                     write_elf(linked, f, type="executable")
